@@ -143,6 +143,20 @@ OnEnter(s, e) ==
                ELSE IF otherVariant \/ (N.c = "enum" /\ F.ph = "bad") THEN Flag(s, {"C10"}, "a field of a variant the tag does not name is read")
                ELSE Flag(s, {"C02", "C06"}, "a child is examined that the container has no obligation for (twice, or out of range)")
 
+\* Freedom: a unit variant of an internally tagged enum under deny_unknown_fields may ignore the members next to the tag (the pinned
+\* code: C09 speaks of structs and struct-like variants) or treat them like a struct-like variant without fields would: then the
+\* frame is the frame of such a variant (every such member is due exactly once, with the empty accepted list).  The choice is a
+\* fact of the run (fnf), like the failures of user functions.
+UnitDenyFrame(s) ==
+    IF s.phase # "running" \/ Len(s.stack) = 0 THEN FALSE
+    ELSE LET F == Top(s.stack) N == Nodes[F.n] IN
+         N.c = "enum" /\ F.ph = "leafok" /\ N.deny # "" /\ F.vi > 0 /\ F.val.t = "map" /\ F.vst = "none"
+LaxUnit(s, wants) ==
+    IF ~(UnitDenyFrame(s) /\ wants) THEN s
+    ELSE LET F == Top(s.stack) N == Nodes[F.n] tj == Min(TagMembers(N, F.val)) IN
+         [s EXCEPT !.stack = SetTop(s.stack, [F EXCEPT !.ph = "work", !.phb = "work", !.pend = StructPend(N, F.vi, F.val, tj)]),
+                   !.fnf = @ \cup {[f |-> "unitdeny", loc |-> F.loc, j |-> 0]}]
+
 \* Freedom: the report of a map key that cannot be parsed may be located at the map (the pinned code) or at the member's own
 \* position (it exists in the payload, and the report says nothing about the value there): the latter is read as the former.
 KeyLocNorm(s, e0) ==
@@ -153,8 +167,9 @@ KeyLocNorm(s, e0) ==
                                             /\ Contains(e0.det.msg, F.val.e[j].k)
          THEN [e0 EXCEPT !.loc = F.loc] ELSE e0
 
-OnErr(s, e0) ==
-    LET e == KeyLocNorm(s, e0) IN
+OnErr(s0, e0) ==
+    LET s == LaxUnit(s0, e0.det.k = "unknownkey")
+        e == KeyLocNorm(s, e0) IN
     IF s.phase # "running" \/ Len(s.stack) = 0 THEN Flag(s, {"CONF"}, "report outside a running call")
     ELSE IF e.id \in s.made THEN Flag(s, {"C01"}, "a report id is used twice")
     ELSE IF s.cur.stopped THEN Flag(s, {"C03"}, "a new report is produced although the error type answered stop and was never told to continue since")
@@ -233,7 +248,14 @@ OnMrg(s, e) ==
             LET hs == {c \in Candidates(s.stack, s.cur) : c.e = "mrg" /\ c.ans = e.ans}
                 mine == {c \in hs : SameBag(e.other, c.ids)}
                 c == CHOOSE x \in mine : \A y \in mine : x.ob.i <= y.ob.i
-            IN IF hs = {} THEN
+                \* Freedom: a container may pass reports it made itself (and has not lost) through its own accumulator once more, at
+                \* its own location (e.g. error(None, ..) followed by merge(accumulated, e, location)): nothing is lost or doubled
+                \* by that - the bag check at its return still decides - and the answer counts like any other answer
+                selfm == mine = {} /\ e.loc = F.loc /\ Len(e.other) > 0 /\ SeqToSet(e.other) \subseteq F.since /\ e.ety = F.ety
+                         /\ F.ph = "work" /\ ~F.brk
+                         /\ \A ob \in F.pend : ob.o = "handover" => SeqToSet(F.hand[ob.i].ids) \cap SeqToSet(e.other) = {}
+            IN IF selfm THEN [s1 EXCEPT !.stack = SetTop(s.stack, [F EXCEPT !.brk = (e.ans = "b")]), !.cur = [@ EXCEPT !.stopped = (e.ans = "b")]]
+               ELSE IF hs = {} THEN
                     (IF F.brk \/ F.ph = "fin" THEN Flag(s1, {"C03"}, "a hand-over happens although nothing was returned to hand over after the stop")
                      ELSE Flag(s1, {"C01", "C11"}, "an error is handed over that no child returned"))
                ELSE IF mine = {} THEN Flag(s1, {"C01"}, "the error handed over is not the error a child returned")
@@ -245,7 +267,8 @@ OnMrg(s, e) ==
 \* the finished value handed to `validate` / the field value handed to `map`
 BuiltAgrees(F, v) == ValueAgrees(F, v)
 
-OnCall(s, e) ==
+OnCall(s0, e) ==
+    LET s == LaxUnit(s0, UnitDenyFrame(s0) /\ Nodes[Top(s0.stack).n].denyfn = e.f) IN
     IF s.phase # "running" \/ Len(s.stack) = 0 THEN Flag(s, {"CONF"}, "user function called outside a running call")
     ELSE IF s.cur.stopped THEN Flag(s, {"C03"}, "a user function is called although the error type answered stop and was never told to continue since")
     ELSE
@@ -317,6 +340,9 @@ OnExit(s, e) ==
                         !.rootexit = IF Len(rest) = 0 THEN [ok |-> e.ok, val |-> e.val, ids |-> e.err.ids] ELSE @]
         bagok == SameBag(e.err.ids, SetAsSeq(F.since))
     IN IF e.n # F.n THEN Flag(s, {"CONF"}, "exit of a node that is not on top of the stack")
+       ELSE IF F.ph \in {"fnm0", "fnm1", "fnm2", "fnmA"} THEN
+            Flag(s, CASE F.fnp.k = "missing" -> {"C08"} [] F.fnp.k = "deny" -> {"C09"} [] OTHER -> {"C11"},
+                 "the container returns without handing the failure of a user function to the error type")
        ELSE IF F.ph = "jbad" THEN
             \* Freedom: a float JSON cannot hold is either reported (the pinned code) or becomes null as in From<Value<V>> - no property
             \* says which; what may not happen is a report together with Ok, or any other document
